@@ -130,12 +130,24 @@ func tryLoad(b []byte, expect string) (kind, detail string, loaded bool) {
 				cnt, _ := runPanicKinds.LoadOrStore(key, new(int64))
 				atomic.AddInt64(cnt.(*int64), 1)
 				rerr = fmt.Errorf("run panicked: %v", p)
-				if expect == "op-error" {
+				if strings.HasPrefix(expect, "op-error") {
 					kind, detail = "panic", fmt.Sprintf("Run panicked: %v :: %s", p, firstLines(string(debug.Stack()), 14))
 				}
 			}
 		}()
 		feed := zeroFeed(m)
+		if feed != nil && expect == "op-error-fed" {
+			// the caller's map additionally carries an entry for every name a node produces
+			if mp, e := gonnx.ModelProtoFromBytes(b); e == nil {
+				for _, nd := range mp.GetGraph().GetNode() {
+					for _, o := range nd.GetOutput() {
+						if o != "" {
+							feed[o] = tensor.New(tensor.WithShape(2, 2), tensor.WithBacking(make([]float32, 4)))
+						}
+					}
+				}
+			}
+		}
 		if feed != nil {
 			outs, rerr = m.Run(feed)
 		}
@@ -143,7 +155,7 @@ func tryLoad(b []byte, expect string) (kind, detail string, loaded bool) {
 	if kind != "" {
 		return
 	}
-	if expect == "op-error" {
+	if strings.HasPrefix(expect, "op-error") {
 		if rerr == nil {
 			return "not-refused", fmt.Sprintf("graph with an unsupported operator type ran and returned %d outputs", len(outs)), true
 		}
@@ -216,7 +228,7 @@ func checkC18(c *hx.Checker) {
 	c.Rule = "seeds: mlp.onnx, scaler.onnx, gru.onnx, mnist-8-opset13.onnx, the zip sample, 47 generated tiny models (every initializer type x encoding at rank 2, every type at rank 0 and 1, mixed attribute kinds, LSTM, Conv) and ndm.onnx; " +
 		"byte faults: EVERY truncation offset and EVERY single-byte substitution by {all 256 values for seeds < 700 B (thorough: < 2 KiB); 0x00,0x01,0x7f,0x80,0xff,b^1,b^0x80 otherwise}; ndm.onnx: 4096 evenly spread truncation offsets + substitutions at 2048 offsets; " +
 		"structural faults on the decoded proto of every seed: each initializer dims entry -> {-1,0,1,d-1,d+1,2^31,2^62}, data_type -> 0..22,99, raw payload +-1 byte / empty, names emptied / duplicated, node inputs/outputs shortened, value-info dims perturbed, graph removed; " +
-		"opset imports: every version in {-1,0..25,2^31,2^63-1} alone, with an ai.onnx.ml import before/after, duplicated, and no import at all; operator types: each registered name and 120 unregistered names placed first / middle / last in a 3-node graph and off the path to the declared output (dead branch listed after / before the producing node, unread consumer of the output, node without inputs, node without outputs). " +
+		"opset imports: every version in {-1,0..25,2^31,2^63-1} alone, with an ai.onnx.ml import before/after, duplicated, and no import at all; operator types: each registered name and 120 unregistered names placed first / middle / last in a 3-node graph and off the path to the declared output (dead branch listed after / before the producing node, unread consumer of the output, node without inputs, node without outputs), each also with the caller's map carrying an entry for every name a node produces. " +
 		"each faulted string goes through NewModelFromBytes under recover() and, when it loads, one Run under recover() (Run panics are counted, not judged: the statement is about loading). non-trivial = every faulted string"
 	c.Assumptions = []string{"'loads iff the highest imported version is 13' is the statement's rule, whatever the domain of the import", "a Run panic of a corrupted-but-loadable model is outside the statement and only counted (run_panics)"}
 	type job struct {
@@ -413,6 +425,7 @@ func checkC18(c *hx.Checker) {
 			o := [3]string{"Relu", "Relu", "Relu"}
 			o[pos] = n
 			jobs = append(jobs, job{chain(o), "op-error", fmt.Sprintf("optype/%q@%d", n, pos), []string{"optype", "unknown-operator"}})
+			jobs = append(jobs, job{chain(o), "op-error-fed", fmt.Sprintf("optype/%q@%d/caller-supplies-node-outputs", n, pos), []string{"optype", "unknown-operator", "fed-node-outputs"}})
 		}
 	}
 	// the unsupported node off the path to the declared outputs: a dead branch listed after / before the node that
@@ -433,6 +446,7 @@ func checkC18(c *hx.Checker) {
 		} {
 			g := &onnx.GraphProto{Name: "g", Input: x, Node: nodes, Output: y}
 			jobs = append(jobs, job{hx.Marshal(hx.Model(g, 13)), "op-error", fmt.Sprintf("optype/%q/%s", n, name), []string{"optype", "unknown-operator", "off-output-path"}})
+			jobs = append(jobs, job{hx.Marshal(hx.Model(g, 13)), "op-error-fed", fmt.Sprintf("optype/%q/%s/caller-supplies-node-outputs", n, name), []string{"optype", "unknown-operator", "off-output-path", "fed-node-outputs"}})
 		}
 	}
 	c.ParallelFor(len(jobs), func(i int) {
